@@ -256,6 +256,10 @@ pub(crate) async fn process_socket_command(
           if let Some(h) = old.task_handle { h.abort(); }
         }
         cs.pipe_read_id_to_endpoint_uri.insert(synthetic_read_id, endpoint_uri.clone());
+        // Handshake done: restart the reconnect backoff (PeerIdentityEstablished does this for Tokio sessions).
+        if let Some(recon_state) = cs.reconnect_states.get_mut(&endpoint_uri) {
+          recon_state.on_connection_success();
+        }
       }
 
       tracing::info!(
@@ -324,14 +328,15 @@ pub(crate) async fn process_socket_command(
       if let Some(s_read_id) = synthetic_read_id_opt {
         socket_logic_strong.pipe_detached(s_read_id).await;
       }
-      pipe_manager::cleanup_stopped_child_resources(
+      // Same path as a stopped Tokio session: clean up and, if this was an outbound
+      // connection lost with an error, schedule the reconnect (RECONNECT_IVL backoff).
+      shutdown::handle_actor_stopping_event(
         core_arc.clone(),
         socket_logic_strong,
         handle_id_opt.unwrap_or(0),
         ActorType::Session,
         Some(&endpoint_uri),
         Some(&error),
-        current_shutdown_phase != ShutdownPhase::Running,
       )
       .await;
     }
